@@ -2,6 +2,7 @@ package props
 
 import (
 	"bytes"
+	"net/textproto"
 	"fmt"
 	"hash/fnv"
 	"os"
@@ -41,6 +42,11 @@ type c11Part struct {
 
 func pluralForm(locale string, n int64) int {
 	switch locale {
+	case "fr": // the catalogue's own header (Plural-Forms: n != 1) decides, not the built-in French rule (n > 1)
+		if n != 1 {
+			return 1
+		}
+		return 0
 	case "ja":
 		return 0
 	case "cs":
@@ -58,7 +64,7 @@ func pluralForm(locale string, n int64) int {
 	return 1
 }
 
-func nForms(locale string) int { return map[string]int{"en": 2, "ja": 1, "cs": 3}[locale] }
+func nForms(locale string) int { return map[string]int{"en": 2, "ja": 1, "cs": 3, "fr": 2}[locale] }
 
 // partsOf lists the parts of a message body with the names from the reference naming rule and the
 // value each placeholder renders (computed by the reference interpreter from the group's lets).
@@ -323,6 +329,12 @@ func checkC11(c C11Case) Verdict {
 		m.Str = entries[i].str
 		file.Messages = append(file.Messages, m)
 	}
+	if c.Locale == "fr" {
+		file.Header = textproto.MIMEHeader{}
+		file.Header.Set("Language", "fr")
+		file.Header.Set("Plural-Forms", "nplurals=2; plural=(n != 1);")
+		file.Header.Set("Content-Type", "text/plain; charset=UTF-8")
+	}
 	var pobuf bytes.Buffer
 	file.WriteTo(&pobuf)
 	os.WriteFile(filepath.Join(dir, c.Locale+".po"), pobuf.Bytes(), 0o644)
@@ -360,7 +372,7 @@ func checkC11(c C11Case) Verdict {
 	if jerr != nil {
 		return bad(true, "%v\n%s", jerr, src)
 	}
-	rule := map[string]string{"en": "one-other", "ja": "only-other", "cs": "one-few-other"}[c.Locale]
+	rule := map[string]string{"en": "one-other", "ja": "only-other", "cs": "one-few-other", "fr": "one-other"}[c.Locale]
 	resp, err := theNode.do(jsRequest{Files: files, Plural: rule, Calls: []jsCall{{Name: "m.t", Data: map[string]interface{}{}}}})
 	if err != nil {
 		return excluded("infra: " + err.Error())
@@ -393,7 +405,7 @@ func letEnv(lets []ref.Cmd) map[string]ref.Value {
 
 func genC11(t *rapid.T) C11Case {
 	g := &gen.G{T: t}
-	c := C11Case{Catalogue: rapid.SampledFrom([]string{"identity", "reverse", "rotate", "partial"}).Draw(t, "catalogue"), Locale: rapid.SampledFrom([]string{"en", "ja", "cs"}).Draw(t, "locale")}
+	c := C11Case{Catalogue: rapid.SampledFrom([]string{"identity", "reverse", "rotate", "partial"}).Draw(t, "catalogue"), Locale: rapid.SampledFrom([]string{"en", "ja", "cs", "fr"}).Draw(t, "locale")}
 	for i, n := 0, rapid.IntRange(1, 3).Draw(t, "ngroups"); i < n; i++ {
 		grp := g.MsgStress(true)
 		msg := &grp[len(grp)-1]
